@@ -225,13 +225,17 @@ class Leg(object):
                 return Failure("merge_attributes[%r] = %r, expected the duplicate-free union %r (always_return_list=%s, %s)"
                                % (k, got, sorted(union), case["arl"], case["kinds"]), sig={"kind": "merge-union", "arl": case["arl"]})
             numeric = None
+            unspecified = False
             if case["numeric_sort"]:
                 try:
                     numeric = [float(v) for v in got]
                     if any(n != n or n in (float("inf"), float("-inf")) for n in numeric):
                         numeric = None
+                        unspecified = True  # 'nan' / 'inf' parse as floats but are not numbers: order not specified
                 except ValueError:
                     numeric = None
+            if unspecified:
+                continue
             if numeric is not None:
                 if numeric != sorted(numeric):
                     return Failure("merge_attributes[%r] = %r is not in numeric order" % (k, got), sig={"kind": "merge-numeric"})
